@@ -117,25 +117,25 @@ Example C03_example :
 Proof. vm_compute. reflexivity. Qed.
 
 (** the check-then-act window of setLocalHead (the shim's head is compared,
-    pending.Add comes later): a verifier call preempted there while Head()
-    learns the next head and the loop syncs it leaves a header BELOW the store
-    head in pending; sync() only logs "already synced", so the subjective head
-    (localHead, what Syncer.Head() reports and new heads are verified against)
-    stays below the store head.  Contiguity and provenance are unaffected (the
-    theorems above hold for this schedule too).  Reproduced on the real code by
-    harness/c03/stale_test.go. *)
-Example C03_stale_pending_example :
+    pending.Add comes later) is inside the machine: a verifier call preempted
+    there while Head() learns the next head and the loop syncs it adds a header
+    BELOW the store head to pending.  Since /repo 77026ec the sync it triggers
+    drops it (RemoveUpTo), so it does not stay behind as the subjective head
+    (C07_quiescent_nothing_pending proves that for every schedule); before, it
+    stayed for good.  Replayed on the real code by the always-generated corpus
+    case of harness/c03 and by harness/c03/stale_test.go. *)
+Example C03_late_add_dropped_example :
   let es := [ EGossip (wch 19) 100%Z (Bif [] false); ET 0; ET 0; ET 0; ET 0
             ; EHead (Some (wch 20)); ET 1; ET 1; ET 1; ET 1; ET 1; ET 1; ET 1
             ; EL GErr; EL GErr; EL GErr; EL GErr; EL GErr
             ; EL (GList [wch 18; wch 19]); EL GErr; EL GErr; EL GErr; EL GErr; EL GErr; EL GErr; EL GErr; EL GErr; EL GErr; EL GErr; EL GErr; EL GErr
             ; ET 0; ET 0
-            ; EL GErr; EL GErr; EL GErr; EL GErr; EL GErr
-            ; EGossip (wch 21) 100%Z (Bif [] false); ET 2; ET 2; ET 2; ET 2; ET 2; ET 2; ET 2; EL GErr; EL GErr; EL GErr; EL GErr ] in
+            ; EL GErr; EL GErr; EL GErr; EL GErr; EL GErr ] in
+  let c1 := run 10%Z (fun _ _ => TVOk) (init_cfg 15 [wch 15; wch 16; wch 17]) (firstn 33 es) in
   let c := run 10%Z (fun _ _ => TVOk) (init_cfg 15 [wch 15; wch 16; wch 17]) es in
-  (c_loop c, map (fun r => map h_height (r_hdrs r)) (c_pend c), rs_head (c_store c), h_height (local_head c), c_trig c) =
-  (LIdle, [[19]], 21, 19, false).
-Proof. vm_compute. reflexivity. Qed.
+  (map (fun r => map h_height (r_hdrs r)) (c_pend c1), rs_head (c_store c1), h_height (local_head c1)) = ([[19]], 20, 19) /\
+  (c_loop c, ranges_all (c_pend c), rs_head (c_store c), h_height (local_head c), c_trig c) = (LIdle, [], 20, 20, false).
+Proof. vm_compute. split; reflexivity. Qed.
 
 Print Assumptions C03_store_contiguous.
 Print Assumptions C03_only_allowed_provenance.
